@@ -1,15 +1,11 @@
 use super::{DbCollection, DbCollectionIden, StoreIden, data, db::MemStore};
+use crate::sync::RwLock;
 use crate::{
     ActError, Result, ShareLock, Workflow,
     store::{Model, Package},
     utils,
 };
-use std::{
-    any::Any,
-    collections::HashMap,
-    convert::AsRef,
-    sync::{Arc, RwLock},
-};
+use std::{any::Any, collections::HashMap, convert::AsRef, sync::Arc};
 use strum::IntoEnumIterator;
 use tracing::trace;
 
